@@ -15,7 +15,7 @@ PROPERTY = 'C13'
 LEVEL = 'exploration'
 RULE = ('cases = (join, tables, threshold pair, operator) on seeded random tables, mutation '
         'neighbourhoods for edit distance, the bundled person data and samples of the bundled books '
-        'data (thorough: 1200-row samples of books, 5000-row Zipf tables), tables whose pairs score exactly the stricter threshold (sets up to 64 tokens), rare-shared-token tables with and without the score column, ambiguous token sets; each case runs the join transposed, at two thresholds and '
+        'data (thorough: 1200-row samples of books, 3500-row Zipf tables), tables whose pairs score exactly the stricter threshold (sets up to 64 tokens), rare-shared-token tables with and without the score column, ambiguous token sets; each case runs the join transposed, at two thresholds and '
         'with the three operators. Non-trivial = the laxer join returns at least one pair that is '
         'neither both-empty nor missing; distinct = case seed.')
 ASSUMPTIONS = ['py_stringmatching tokenizers are trusted (used only to classify straddling pairs)']
@@ -57,8 +57,9 @@ def plan(tier, seed):
     shards.append({'name': 'books_b', 'kind': 'data', 'data': 'books', 'rows': 400 if tier == 'quick' else 1200,
                    'n': 5 if tier == 'quick' else 10, 'seed': seed * 1000 + 234})
     if tier == 'thorough':
-        shards.append({'name': 'zipf', 'kind': 'data', 'data': 'zipf', 'rows': 5000, 'n': 6,
-                       'seed': seed * 1000 + 235})
+        for z in range(3):      # (one shard took > 70 min with 5000 rows x 6 cases: three shards of 3500 rows x 2)
+            shards.append({'name': 'zipf_%d' % z, 'kind': 'data', 'data': 'zipf', 'rows': 3500, 'n': 2,
+                           'seed': seed * 1000 + 235 + 10 * z})
     return shards
 
 
@@ -375,6 +376,8 @@ def data_call(rng, case, data):
             t_strict = rng.choice([0.8, 0.85, 0.9, 1.0])
     call = {'api': api, 'ltable': L, 'rtable': R, 'l_key': lk, 'r_key': rk, 'l_attr': la, 'r_attr': ra,
             'tok': tok, 'allow_missing': False, 'n_jobs': 1}
+    if case['data'] in ('zipf', 'books'):
+        call['warm'] = None             # (the used-before presentation would double these long joins)
     return call, t_lax, t_strict
 
 
